@@ -40,6 +40,26 @@ CHECKS = {
    text="best_is_optimal_model, best_none_iff_unsat, topk_is_a_top_k_selection, topk_values_are_the_k_largest hold for every node array, objective vector, assumption list and k>0 (no well-formedness needed); candidates_are_models_containing_A links the ranged-over list to the models containing A for well-formed arrays. Tie: best/top-k of the real ExtendedDdnnf (hook accessor) vs the Lean model (exact configurations for tie-free vectors, value sequences for tied ones) and vs brute-force ranking of the truth table, k in {1,2,3,count,count+1,random}.",
    note="Objective values are integers in the model; the harness uses integer-valued f64 with |v| <= 2^20 so f64 sums are exact; f64 rounding for non-integer objectives is not modelled. Ties: BinaryHeap pop order among equal values is unspecified; theorems and comparison are by value.",
    ref="DESIGN.md §8 C20"),
+ "C14": dict(
+   technique="Lean 4 invariant proof over all interleavings of the reader/worker/printer state machine + replay of the real binary's event traces through that machine + stdout comparison with -j 1",
+   text="output_in_input_order, every_accepted_line_answered_before_exit, accepted_lines_are_conserved, never_stuck_with_pending_work hold for every event sequence the state machine accepts (any number of workers, any interleaving). Tie: the real binary `ddnnife stream -j N` (N up to 32, batches up to 2000 lines, six processes at once, seeded delays at the pull/send/recv/print points) emits its events through the hook; every trace must be accepted by the Lean machine and end in a finished state that printed everything in order; stdout is compared with -j 1 byte for byte. The check found that answers received in the iteration that reads exit/EOF were never printed (fixed 9ea73e5).",
+   note="Partial: liveness of thread::park/unpark, the mpsc channel and the OS scheduler are runtime behaviour; the model proves the safety form only (an enabled step exists while work is pending). 'identical to the single-worker answer' is established by comparison with -j 1 for count/sat/core/seeded random/atomic requests, and by C16 for the clone of the model each worker holds.",
+   ref="DESIGN.md §8 C14"),
+ "C15": dict(
+   technique="Lean 4 theorem: sorting any permutation of the indexed results reproduces the sequential output + byte comparison j=N vs j=1 under injected delays",
+   text="parallel_output_equals_sequential holds for every order of arrival of the worker results (every schedule, every j); exactly_one_line_per_query. Tie: operate_on_queries (count and sat) with j in {2,4,random,32} against j=1 byte for byte on query files of 0..5000 lines (empty lines, duplicates), seeded delays in the worker closure; CLI count-queries/sat -j N; the line format is compared with the model's fmtLine.",
+   note="Modelled, not verified: workctl queue and mpsc channel deliver every result exactly once (the hypothesis 'arrivals is a permutation of the indexed results'); worker answers equal the original's because workers hold clones (C16).",
+   ref="DESIGN.md §8 C15"),
+ "C17": dict(
+   technique="Lean 4 theorem: lock-protected cursor section is serialisable for every schedule; witness of the race for the split section + controlled scheduling of the real code through hook points",
+   text="concurrent_requests_are_serialisable / pages_are_the_sequential_pages: every schedule admitted by the lock yields the pages of sequential processing in lock-acquisition order, i.e. consecutive slices (C06); split_cursor_section_races is the kernel-checked witness that the pre-repair code (two lock acquisitions) could hand out a page twice. Tie: 2..4 concurrent enumerate calls on clones with request 0 paused by the hook right after its cursor read while the others run; observed read/write events are replayed through the Lean lock machine (a read inside a foreign section is rejected) and the pages compared; pages judged as a sequential history by the truth-table oracle; free-running `stream -j 2..4` with several enum lines under seeded delays.",
+   note="Modelled, not verified: std::sync::Mutex provides mutual exclusion (the lock discipline of the model); thread scheduling is explored by pausing at hook points and by delays, not exhaustively at instruction level.",
+   ref="DESIGN.md §8 C17"),
+ "C19": dict(
+   technique="Lean 4 theorems: Tseitin export has exactly one extension per model (bijection), equi-countable, header = max variable with no gaps + exact clause comparison and independent DPLL count",
+   text="cnf_is_equicountable, cnf_models_project_to_models, every_model_has_exactly_one_extension, header_declares_what_the_cnf_contains for every well-formed array satisfying the driver-checked side conditions (q cnfok). Tie: the clause list and num_variables of Cnf::from(&Ddnnf) are compared literally with the Lean toCnf on the exported array; an independent DPLL counter counts the exported CNF over its declared variables and checks that the projection onto the features hits every model exactly once; printed header vs content; c2d inputs with true nodes included (the panic on constants was repaired in 9dec93a).",
+   note="Side conditions CnfOK (leaf literals in 1..n, some Tseitin variable introduced, root represented by the last variable) are decided per exported array; models with a single literal (n < 2) are outside the property. HashMap-based operation cache is modelled as an association list (lookup only, no iteration).",
+   ref="DESIGN.md §8 C19"),
  "C01": dict(
    technique="Lean 4 theorem (count = number of satisfying assignments for every well-formed node array) + per-input validated loader correspondence",
    text="Theorems count_is_model_count / same_function_same_count hold for every well-formed node array of any size (induction over the array, kernel-checked). The loader is tied per input: the Lean driver evaluates the decidable WF predicate and the truth table on the node array the real loader exported and compares with the truth table of the input text; the real code is compared with an independent oracle.",
